@@ -53,8 +53,12 @@ ASSUME = [
     "cryptography (encrypt = Section variable `enc`), the encoder (`encode`), struct.pack (`hdr`); the "
     "keep-alive thread is an ordinary sender entering at the protocol group's toLower (layer >= 5); the handshake "
     "thread is a thread of the second model (C11HsModel, see the handshake-side entry below)",
-    "locks: the harness does not assign layer locks; `threading.Lock` as seen by yowsup.layers / noise.layer / "
-    "protocol_iq.layer is rebound to a factory of instrumented locks (a creation is a scheduling point of its own); a "
+    "locks: the harness does not assign layer locks; in every loaded yowsup module `threading` and the names Lock / "
+    "RLock / Event / Condition / Semaphore imported from it are rebound to instrumented primitives (blocking operations "
+    "are scheduler-controlled, non-blocking ones yield points, a lock creation is a scheduling point of its own; only "
+    "layer locks are model steps); a layer lock of a hand-written Python class is left in place and its class "
+    "instrumented (acquire-return / release-call = the layer's acquire / release); the harness checks on every trace "
+    "that at most one thread is between those two per layer; a "
     "lock created before that rebinding or by other means is invisible to the scheduler (a thread blocking on it is "
     "reported as `unmodelled block`, tie broken without input); line-level yields exist only inside YowLayer.toLower "
     "and only in the runs counted as line_level_runs",
@@ -115,6 +119,8 @@ class Sched(object):
         self.lock_uids = {}       # site name -> distinct lock objects acquired under that name
         self.lock_created = 0     # locks created by scheduled threads during the run
         self.unknown_ops = 0      # operations the model does not know (busy try-locks)
+        self.inside = {}          # layer -> threads between acquire-return and release-call of its lock
+        self.mutex_violations = []
 
     def tid(self):
         return self.tids.get(threading.get_ident())
@@ -137,6 +143,8 @@ class Sched(object):
             t.join(0.5)
 
     def enabled(self, ev):
+        if len(ev) > 3 and ev[3] is not None:
+            return bool(ev[3]())
         if ev[0] == "acq":
             return not ev[2].real.locked()
         if ev[0] == "get":
@@ -172,7 +180,8 @@ class Sched(object):
                 return
             runnable = sorted(t for t, ev in self.pending.items() if self.enabled(ev))
             if not runnable:
-                self.stuck = "deadlock: pending %r owners %r" % (self.pending, self.owner)
+                self.stuck = "deadlock: pending %r owners %r" % (
+                    dict((t, e[:2]) for t, e in self.pending.items()), self.owner)
                 return
             k = self.chooser(len(self.choices), runnable, self.trace)
             tid = runnable[k]
@@ -181,20 +190,33 @@ class Sched(object):
             self.choices.append(k)
             self.runnables.append(list(runnable))
             self.trace.append((tid, ev[0], ev[1]))
-            if ev[0] == "try":
+            step = len(self.trace) - 1
+            if ev[0] == "acq!":
+                # acquire() of a layer lock whose CLASS is instrumented (a Python class of yowsup's own) has returned
+                self.trace[-1] = (tid, "acq", ev[1])
+                self.owner[ev[1]] = tid
+                self.lock_uids.setdefault(ev[1], set()).add(ev[2].uid)
+                c11hs.note_exclusion(self, step, "acq", ev[1], tid)
+            elif ev[0] == "xbusy":
+                self.trace[-1] = (tid, "try:busy", ev[1])
+                self.unknown_ops += 1
+            elif ev[0] == "try":
                 # try-lock / timed acquire: the outcome is fixed now (only the granted thread runs next)
                 got = not ev[2].real.locked()
                 self.trace[-1] = (tid, "try:got" if got else "try:busy", ev[1])
                 if got:
                     self.owner[ev[1]] = tid
                     self.lock_uids.setdefault(ev[1], set()).add(ev[2].uid)
+                    c11hs.note_exclusion(self, step, "acq", ev[1], tid)
                 else:
                     self.unknown_ops += 1
             elif ev[0] == "acq":
                 self.owner[ev[1]] = tid
                 self.lock_uids.setdefault(ev[1], set()).add(ev[2].uid)
+                c11hs.note_exclusion(self, step, "acq", ev[1], tid)
             elif ev[0] == "rel":
                 self.owner[ev[1]] = None
+                c11hs.note_exclusion(self, step, "rel", ev[1], tid)
             elif ev[0] == "mklock":
                 self.lock_created += 1
             waiting_for = 1
@@ -204,11 +226,11 @@ class Sched(object):
 class TCtl(c11hs.LockCtl):
     """lock events of the transport-side bench (locks are instrumented at CREATION, see harness/c11hs.py)"""
 
-    def emit(self, kind, name, lk):
+    def emit(self, kind, name, lk, pred=None):
         s = self.sched
         tid = s.tid() if s else None
         if tid is not None:
-            s.yield_(tid, (kind, name, lk))
+            s.yield_(tid, (kind, name, lk, pred))
 
 
 class IQueue(object):
@@ -359,6 +381,8 @@ def oracle(scenario, s, ids, err, leftover):
         probs.append(s.stuck)        # (a block the scheduler cannot see is a limit of the tie: model_check reports it)
     if s.errors:
         probs.append("a sender raised: %r" % s.errors)
+    for m in s.mutex_violations[:2]:
+        probs.append(m)
     if err:
         probs.append("the in-order peer cannot decrypt: %s after %d good frames" % (err, len(ids)))
     if leftover:
@@ -509,13 +533,14 @@ def run(ctx):
 
     stats = {"schedules": 0, "events": 0, "distinct": set(), "control_runs": 0, "control_detected": 0,
              "exhaustive_scenarios": [], "max_runnable": 0, "first_send_runs": 0, "line_mode_runs": 0,
-             "locks_created_while_sending": 0, "unknown_ops": 0}
+             "locks_created_while_sending": 0, "unknown_ops": 0, "exclusion_violations": 0}
     n_viol = [0]          # oracle violations (failing input found)
     n_corr = [0, None]    # trace mismatches, schedule count at the first one
 
     def stop():
         # after a trace mismatch keep searching (bounded) for a schedule on which the property itself fails
         return n_viol[0] >= 3 or (n_corr[0] > 0 and stats["schedules"] - n_corr[1] > 400) or \
+            (state.get("first_exclusion_at") is not None and stats["schedules"] - state["first_exclusion_at"] > 400) or \
             state.get("unmodelled", 0) >= 3      # each unmodelled block costs a backstop wait: do not search on
 
     def move_on(n_here):
@@ -549,6 +574,7 @@ def run(ctx):
             stats["distinct"].add(key)
         case = {"scenario": scenario, "choices": s.choices, "fresh_stack": bool(fresh), "line_mode": bool(line),
                 "line_helpers": bool(helpers), "operations_unknown_to_the_model": s.unknown_ops, "mode": mode,
+                "layer_locks_of_a_python_class": dict(b.h.custom),
                 "distinct_lock_objects_per_layer": dict((n, len(u)) for n, u in s.lock_uids.items() if len(u) > 1),
                 "schedule": [t for t, _, _ in s.trace],
                 "trace": ["%d:%s%s" % (t, k, "(%s)" % o if o else "") for t, k, o in s.trace][:200],
@@ -563,7 +589,26 @@ def run(ctx):
                 if n_corr[0] <= 1:
                     ctx.violation("correspondence:C11.trace(control)", dict(case, diffs=diffs[:5]), found_input=False)
             return s
-        if probs:
+        if probs and all(p.startswith("mutual exclusion") for p in probs):
+            # two threads inside one layer's lock: a concrete schedule against the mechanism the property rests on,
+            # reported once; the search goes on (bounded) for a schedule on which it also shows on the wire
+            stats["exclusion_violations"] += 1
+            if state.get("first_exclusion_at") is None:
+                state["first_exclusion_at"] = stats["schedules"]
+                n_viol[0] += 1
+                ctx.violation("oracle:two_threads_inside_one_layer_lock", dict(case, problems=probs, model_diffs=diffs[:5]))
+                # directed search for a schedule on which it reaches the wire: one, then two preemptions of this
+                # scenario and of the small coder-entry scenarios, on fresh stacks
+                v0 = n_viol[0]
+                for sc in [scenario] + [x for x in ([[4], [4]], [[4], [4], [4]]) if x != scenario]:
+                    for bound in (1, 2):
+                        prefix, n = [], 0
+                        while prefix is not None and n < 120 and n_viol[0] == v0 and state.get("unmodelled", 0) < 3:
+                            sx = one(sc, cont_chooser(prefix), mode="wire-search-pb%d" % bound, fresh=True)
+                            n += 1
+                            prefix = next_prefix_pb(sx, bound)
+                state["first_exclusion_at"] = stats["schedules"]      # the bounded general search starts now
+        elif probs:
             n_viol[0] += 1
             if any("not on the wire" in p for p in probs) and not s.stuck:
                 after = b.probe_further_send()
@@ -580,8 +625,9 @@ def run(ctx):
             if n_corr[0] <= 1:
                 # reported at the end, and only when the search finds no schedule on which the oracle fails
                 state["first_mismatch"] = dict(case, diffs=diffs[:5])
-        if s.unknown_ops and not control and not state.get("escalating") and len(scenario) == 2 and \
-                json.dumps(scenario) not in state.setdefault("escalated", set()):
+        if (s.unknown_ops or b.h.custom) and not control and not state.get("escalating") and len(scenario) == 2 and \
+                json.dumps(scenario) not in state.setdefault("escalated", set()) and \
+                (s.unknown_ops or len(state["escalated"]) < state.get("escalation_budget", 2)) and not stop():
             state["escalated"].add(json.dumps(scenario))
             state["escalating"] = True
             try:
@@ -598,7 +644,7 @@ def run(ctx):
         warm and first-send, with line-level preemption in YowLayer.toLower and the YowLayer helpers it calls,
         one then two preemptions, until the oracle fails"""
         v0 = n_viol[0]
-        for bound, cap in ((1, 150), (2, 500 if quick else 3000)):
+        for bound, cap in ((1, 60 if quick else 300), (2, 150 if quick else 3000)):
             for fresh in (False, True):
                 prefix, n = [], 0
                 while prefix is not None and n < cap and n_viol[0] == v0 and state.get("unmodelled", 0) < 3:
@@ -702,7 +748,9 @@ def run(ctx):
                 hs["first_mismatch_at"] = hs["schedules"]
                 state["hs_first_mismatch"] = dict(case, diffs=diffs[:5])
         key2 = json.dumps([variant, senders, srv])
-        if s.unknown_ops and not state.get("hs_escalating") and key2 not in state.setdefault("hs_escalated", set()):
+        if (s.unknown_ops or b.h.custom) and len(senders) == 2 and not state.get("hs_escalating") and \
+                key2 not in state.setdefault("hs_escalated", set()) and \
+                (s.unknown_ops or len(state["hs_escalated"]) < 2) and not hs_stop():
             state["hs_escalated"].add(key2)
             state["hs_escalating"] = True
             try:
@@ -741,7 +789,9 @@ def run(ctx):
     #  from inside receive() by whichever thread flushes the incoming buffer: the handshake worker or the network thread)
     hs_scen = [("XX", [[6], [5, 5]], 0), ("IK", [[5, 5, 5], [6, 6]], 0), ("XX", [[6, 5, 6, 5]], 0),
                ("IK", [[5], [5], [6]], 0), ("XX", [[6, 6], [5, 5], [5]], 0), ("IK", [[6, 5], [5, 6]], 0),
-               ("IK", [[5, 6], [6]], 1), ("IK", [[5, 5, 5]], 2)]
+               ("IK", [[5, 6], [6]], 1), ("IK", [[5, 5, 5]], 2),
+               # bursts: three back to back against one, two against two, entering at different layers
+               ("IK", [[5, 5, 5], [6]], 0), ("XX", [[6, 6], [5, 5]], 0)]
 
     def hs_part():
         hs_systematic("IK", [[5]], 1 if quick else 2, 150 if quick else 1500)
@@ -762,11 +812,31 @@ def run(ctx):
                 ch = c11hs.pct_chooser(ctx.rng, ctx.rng.choice([1, 2, 3]), 90)
             hs_one(variant, senders, ch, "pct/walk", srv, line=(i % 16 == 15))
 
+    bursts = [[[4, 4, 4], [4]], [[5, 5], [4, 4]], [[9, 9, 9], [8]], [[4, 4, 4], [5]], [[8, 8], [9, 9]]]
+
+    def burst_phase():
+        if state.get("bursts_done"):
+            return
+        state["bursts_done"] = True
+        bounded(bursts[0], 1, 60 if quick else 300)
+        bounded(bursts[1], 1, 60 if quick else 300, fresh=True)
+        for i in range(120 if quick else 1000):
+            if stop():
+                break
+            one(bursts[i % len(bursts)], random_chooser(ctx.rng, ctx.rng.choice([0.3, 0.6, 0.85, 0.92])),
+                mode="burst", fresh=(i % 3 == 2))
+
     scen_random = [[[5, 4], [4, 5]], [[4, 4], [5, 5], [4, 5]], [[5], [4], [5], [4]], [[4, 5, 4], [5, 4, 5]],
                    [[5, 5], [4], [4, 4], [5]],
                    # application threads (top) + keep-alive (iq layer) + a reply generated lower down (coder)
                    [[9, 9], [8, 8]], [[9], [8], [4]], [[9, 8], [8, 9], [5], [4]]]
     try:
+        if bench().h.custom:
+            # a layer lock of a hand-written class: what such a lock gets wrong shows under contention with a sender
+            # that comes straight back, so the burst scenarios go first (the escalated line-level enumeration is
+            # then limited to the first two 2-sender scenarios)
+            state["escalation_budget"] = 2
+            burst_phase()
         # exhaustive small scenarios
         exhaustive([[5], [4]], 400)
         exhaustive([[4], [4]], 400)
@@ -788,6 +858,9 @@ def run(ctx):
                 break
             one(first_scen[i % len(first_scen)], random_chooser(ctx.rng, ctx.rng.choice([0.0, 0.3, 0.6, 0.85])),
                 fresh=True, line=(i % 5 == 4))
+        # bursts: one thread sends several stanzas back to back while another is parked on a layer lock (a hand-off
+        # that lets the releasing thread back in before the woken waiter has the lock shows up only then)
+        burst_phase()
         # seeded random walks
         nrand = 900 if quick else 40000
         for i in range(nrand):
@@ -861,6 +934,11 @@ def run(ctx):
     ctx.coverage["first_send_on_fresh_stack_runs"] = stats["first_send_runs"] + hs["schedules"]
     ctx.coverage["line_level_runs"] = stats["line_mode_runs"] + hs["line_runs"]
     ctx.coverage["locks_created_by_sender_threads"] = stats["locks_created_while_sending"] + hs["locks_created"]
+    cust = {}
+    if state["bench"] is not None:
+        cust.update(state["bench"].h.custom)
+    ctx.coverage["layer_locks_of_a_python_class"] = cust
+    ctx.coverage["runs_with_two_threads_inside_one_layer_lock"] = stats["exclusion_violations"]
     ctx.coverage["operations_unknown_to_the_model"] = stats["unknown_ops"] + hs["unknown_ops"]
     ctx.coverage["lock_factory_bindings"] = ["%s.%s" % b for b in c11hs.install_lock_factory()]
     fb = sorted(set((state["bench"].h.fallback if state["bench"] is not None else [])))
